@@ -905,6 +905,11 @@ class Process(StateMachine, persistence.Savable, metaclass=ProcessStateMachineMe
             msg_txt = msg[MESSAGE_TEXT_KEY] or ''
 
         self.set_status(msg_txt)
+
+        # The kill may have been requested by cancelling the future, which can then not be resolved any more: it is
+        # replaced before the outcome is set.
+        if self.future().cancelled():
+            self._future = persistence.SavableFuture(loop=self._loop)
         self.future().set_exception(exceptions.KilledError(msg_txt))
 
     @super_check
